@@ -112,6 +112,7 @@ type loopInfo struct {
 	measure   string
 	isRange   *ssa.Phi // rangeindex phi if any
 	pending   []*pendingObl
+	entryState *State
 	frameKeys []string
 	frameCond map[string]string
 }
